@@ -250,7 +250,7 @@ def stop_key(enc, sysm, tid, pc):
       return ('wr', f'{dst[1]}.{enc.canon(("g", dst[1], dst[2]))[2]}', ins['line'])
     if isinstance(e, tuple) and e[0] == 'g':
       return ('rd', f'{e[1]}.{enc.canon(e)[2]}', ins['line'])
-  if op in ('halt', 'br', 'jmp', 'nop'):
+  if op in ('halt', 'br', 'jmp', 'nop', 'start'):
     return ('start', '', 0)
   return (op, '', ins['line'])
 
